@@ -148,7 +148,10 @@ TEXT = {
                       "on the facing side, no palindrome, join accepted). The model is diffed verbatim with the crate for all three entry points. C01_from_reads: for every read set, K >= 4, both summarizers, every memory budget and every hash order, "
                       "filter -> prune -> compress never panics and the nodes' canonical k-mers are a permutation of the accepted k-mers. "
                       "C01_no_exts: the same for the entry point without extensions (compress_kmers_no_exts): the extension bytes it discovers "
-                      "by probing the key set form a well-formed reciprocal table, in whatever order the hash map lists it.",
+                      "by probing the key set form a well-formed reciprocal table, in whatever order the hash map lists it - in both strandedness modes "
+                      "since the repair of D9 (the stranded mode looked neighbours up by canonical form; found on the unchanged tree, fixed in /repo). "
+                      "One request in 500 (`longpath`) runs an unbranched path of > 131 073 k-mers through the real entry points, judged against the "
+                      "statement (one node), not against the executable model.",
         "design_ref": "DESIGN.md section 6, C01",
         "level_note": COMMON_NOTE + "The hash map's index order is an input (observed; the theorems hold for every order). C01_from_reads discharges the table "
                       "hypotheses for every read set with empty boundary extensions (C05_table_wf: filter output is well-formed and reciprocal, also "
@@ -333,12 +336,15 @@ TEXT = {
                       "C20_json_wellformed: that document is a JSON text - an inductive grammar (objects, arrays, strings with the standard "
                       "escapes, integer literals without leading zeros, opaque values for payload renderings) accepts it for every graph and "
                       "every rest object, its keys escaped as serde_json does (defect D8, found by this proof: keys were written unescaped; "
-                      "repaired). The serde round trips are "
+                      "repaired). Persistence, writer side: the texts serde_json writes for k-mers, Exts, DnaString, Lmer, PackedDnaStringSet and BaseGraph "
+                      "are modelled (Model/Serde.lean), compared verbatim on every persist request, and proved injective (C20_*_text_injective: no two values share a "
+                      "text - prefix-decodability of decimal runs, arrays and objects composed field by field). to_dot and Debug for Node are modelled and "
+                      "compared as well (dot_arrows_iff: the arrows under a node are exactly its edges). The reader side of the serde round trips is "
                       "decided by execution: records re-read into port pairs and counted, the JSON parsed with serde_json and its counts compared "
                       "with the graph, round trips of k-mers / strings / Lmers / extension sets / graphs compared by equality and queries. Two "
                       "defects (D5 JSON trailing comma, D6 missing right hairpin) were found by this check and repaired in /repo.",
         "design_ref": "DESIGN.md section 6, C20",
-        "level_note": COMMON_NOTE + "Partial: persistence tested, not proved (derived serde code is outside the model).",
+        "level_note": COMMON_NOTE + "Partial: the reading half of persistence is tested, not proved (derived Deserialize code and the serde_json parser are outside the model; the written text is modelled and proved injective).",
         "technique": "Lean 4 proof (GFA link soundness/completeness by case analysis; JSON comma logic = separated arrays by fold/intercalate algebra) + verbatim text correspondence + serde round-trip tests",
     },
 }
